@@ -353,11 +353,8 @@ fn skip<'a>(
                                     || directive == Directive::ElIf
                                 {
                                     if scoup_count == 0 {
-                                        ret = if directive == Directive::ElIf {
-                                            Some((num, line))
-                                        } else {
-                                            iter.next()
-                                        };
+                                        // line which ends the branch is processed by the caller
+                                        ret = Some((num, line));
                                         break;
                                     } else {
                                         if directive == Directive::Endif {
@@ -388,7 +385,8 @@ pub fn parse_iter<'a>(
     let mut next_item = NextItem::NewLine;
 
     loop {
-        // .elif is a condition only after branch which isn't assembled
+        // after branch which isn't assembled skip() returns the line which ends it (.elif, .else or .endif):
+        // only then .elif is a condition and .else starts branch to assemble
         let after_skip = next_item == NextItem::EndIf;
         if let Some((line_num, line)) = skip(iter, context, next_item) {
             next_item = NextItem::NewLine; // clear conditional flag to typical state
@@ -422,7 +420,10 @@ pub fn parse_iter<'a>(
                                 ));
                             }
                         }
-                        let item = if d == Directive::ElIf && !after_skip {
+                        let item = if after_skip && (d == Directive::Else || d == Directive::Endif) {
+                            // end of branch which isn't assembled: next branch (or code after block) is assembled
+                            NextItem::NewLine
+                        } else if d == Directive::ElIf && !after_skip {
                             // branch of this conditional block is already assembled, other branches must be skipped
                             NextItem::EndIfAll
                         } else {
